@@ -1,0 +1,27 @@
+package rel
+
+import "sync"
+
+// firstError records the first error reported by callbacks that may run on
+// several goroutines at once (frozen fans Where out over goroutines for large
+// sets).
+type firstError struct {
+	mu  sync.Mutex
+	err error
+}
+
+// set records err unless an earlier error was already recorded.
+func (f *firstError) set(err error) {
+	f.mu.Lock()
+	if f.err == nil {
+		f.err = err
+	}
+	f.mu.Unlock()
+}
+
+// get returns the recorded error, if any.
+func (f *firstError) get() error {
+	f.mu.Lock()
+	defer f.mu.Unlock()
+	return f.err
+}
